@@ -227,7 +227,7 @@ pub fn make_case(subs: &[Vec<L>], stops: &[StopVia], aw: Awaiter, mailbox: Mailb
         desc,
         exec: ExecCfg::default(),
         bound,
-        scene: Box::new(ProgScene { spawn: SpawnCfg::plain(mailbox), roles: vec![role], clients, extra: X { failing }, oracle }),
+        scene: Box::new(ProgScene { attach: crate::progscene::Attach::None, spawn: SpawnCfg::plain(mailbox), roles: vec![role], clients, extra: X { failing }, oracle }),
     }
 }
 
